@@ -73,6 +73,15 @@ fn run_script(script: &Value) -> Value {
     ledger::reset();
     let mut world = World::new();
     world.register::<CDense<0>>();
+    // "dead": the first n indices belong to deleted entities, so that the handles made for them below
+    // carry a dead generation (a change set goes by the index alone)
+    let n_dead = script["dead"].as_u64().unwrap_or(0) as usize;
+    if n_dead > 0 {
+        let es: Vec<Entity> = world.create_iter().take(n_dead).collect();
+        let _ = world.delete_entities(&es);
+    }
+    // "inexact": the iterators handed to collect / extend cannot predict their length
+    let inexact = script["inexact"].as_bool().unwrap_or(false);
     let mut store_js = vec![];
     {
         let mut st = world.write_storage::<CDense<0>>();
@@ -109,7 +118,11 @@ fn run_script(script: &Value) -> Value {
             let chunk: Vec<(Entity, Trail)> = (k..k + n).map(|j| mk(j)).collect();
             k += n;
             match (h.as_str(), cs.is_none()) {
+                ("collect", true) if inexact => cs = Some(chunk.into_iter().filter(|_| true).collect()),
                 ("collect", true) => cs = Some(chunk.into_iter().collect()),
+                ("extend", _) | ("collect", false) if inexact => {
+                    cs.get_or_insert_with(ChangeSet::new).extend(chunk.into_iter().filter(|_| true))
+                }
                 ("extend", _) | ("collect", false) => {
                     cs.get_or_insert_with(ChangeSet::new).extend(chunk)
                 }
